@@ -315,6 +315,16 @@ def r09e(ctx):
                 continue
             n += len(parses)
             bad = [e for e in _truth_tested(f.node) if classify(e) == "DOC"]
+            # any(docs) / all(docs) (or over a generator that yields the documents) ask for their truth values
+            for c in walk_no_nested(f.node):
+                if isinstance(c, ast.Call) and call_name(c) in ("any", "all") and len(c.args) == 1:
+                    a_ = c.args[0]
+                    if classify(a_) == "DOCS" or (isinstance(a_, (ast.GeneratorExp, ast.ListComp)) and len(a_.generators) == 1
+                                                  and classify(a_.generators[0].iter) == "DOCS" and isinstance(a_.generators[0].target, ast.Name)
+                                                  and (dotted(a_.elt) == a_.generators[0].target.id
+                                                       or (isinstance(a_.elt, ast.UnaryOp) and isinstance(a_.elt.op, ast.Not) and dotted(a_.elt.operand) == a_.generators[0].target.id)
+                                                       or (isinstance(a_.elt, ast.Call) and call_name(a_.elt) == "bool"))):
+                        bad.append(c)
             # filter(None, docs) / filter(bool, docs) drop the falsy documents just the same
             bad += [c for c in walk_no_nested(f.node) if isinstance(c, ast.Call) and call_name(c) == "filter" and len(c.args) == 2
                     and classify(c.args[1]) == "DOCS" and (dotted(c.args[0]) == "bool" or (isinstance(c.args[0], ast.Constant) and c.args[0].value is None))]
